@@ -594,7 +594,7 @@ fn miri_cmd(verif: &str) -> std::process::Command {
   let mut c = std::process::Command::new("cargo");
   c.args(["+nightly", "miri", "run", "--quiet", "--manifest-path", &format!("{}/Cargo.toml", dir), "--"]);
   c.current_dir(&dir);
-  c.env("CARGO_TARGET_DIR", tgt).env("CARGO_NET_OFFLINE", "true").env("MIRIFLAGS", "-Zmiri-ignore-leaks");
+  c.env("CARGO_TARGET_DIR", tgt).env("CARGO_NET_OFFLINE", "true").env("MIRIFLAGS", "-Zmiri-ignore-leaks -Zmiri-deterministic-floats");
   c.env_remove("RUSTFLAGS").env_remove("RUSTC_BOOTSTRAP").env_remove("CARGO_ENCODED_RUSTFLAGS");
   c
 }
